@@ -12,7 +12,8 @@
   once when a failing alternative left nothing pushed (the HARD failure the GenBank reader relies on); `Map` pops on a
   failure and drops BEFORE the mapping runs.  `map_sim_at` is the pointwise form (a fuelled parser simulates only where
   the fuel suffices); `point_sim`: `pars.Parser(pars.Int).Map(…)` of location.go is `LocParse.point`.
-  `pars.Seq`, `Many`, `Exact`, `Until(parser)`, `Quoted` stay with the facts (`pars_<Function>`).
+  `Many`, `Quoted` stay with the facts (`pars_<Function>`); `pars.Seq` / `Child` / `Exact` are bridged in
+  `Bridge/ParsSeq.lean`, `Until(parser)` in `Bridge/ParsUntil.lean` (added later).
 
   CORRECTED (audit S5).  `SimP` asks for agreement from EVERY `Inv` state; every fuelled primitive (`parsInt env fuel`, `parsSpaces`,
   `parsWord`, `parsLine`, `parsUntil*`) simulates its model parser only where fewer bytes than the fuel are left, so `SimP` is FALSE
@@ -550,7 +551,7 @@ theorem int_not_simP : ¬ SimP demoPend (fun n r => r = ResultV.int n) (parsInt 
 model's `LocParse.anyOf [LocParse.point-as-mapP, byte]` up to every bound `L` below the loop fuel of `Int`, for every reader that
 meets `FillOk` / `EnvOk` and every mapping `f` that turns `n` into a value standing for `Point(n − 1)` and cannot fail.  (The other
 alternatives of `ParseLocation` — `parseRange`, `parseComplement`, `parseJoin`, `parseOrder`, `parseAmbiguous`, `parseBetween` — are
-built with `pars.Seq`, which has no regenerated bridge: they stay with the facts `pars_Seq`.) -/
+built with `pars.Seq`, whose bridge — `seq_simUpTo`, `Bridge/ParsSeq.lean` — was added later and is not instantiated on them.) -/
 theorem any_int_point_simUpTo (L : Nat) (env : Env ρ ε) (pend : ρ → Option ε → Bytes) (hf : FillOk env pend) (he : EnvOk env)
     (fuel : Nat) (hfu : L < fuel) (val' : Loc → ResultV → Prop) (f : ResultV → ResultV × Option ε)
     (hmap : ∀ n, (f (ResultV.int n)).2 = none ∧ val' (.point (n - 1)) (f (ResultV.int n)).1)
